@@ -73,6 +73,15 @@ fn setters(ctx: &mut Ctx, r: &mut Rng, _i: u64) {
     tb.set_collateral(&cb);
     let k = s.key_ix();
     let ret_addr = s.key_address(k);
+    // now and then an earlier, successful call of the total-first helper: the judged call replaces what it set
+    let mut pre_set = false;
+    if s.r.below(4) == 0 {
+        let t0 = (sum.coin / 2).max(0) as u64;
+        if let Ok(Ok(())) = guard(|| tb.set_total_collateral_and_return(&BigNum::from(t0), &ret_addr)) {
+            pre_set = true;
+            ctx.bucket("setter.preceded-by-an-earlier-successful-call");
+        }
+    }
     let which = s.r.below(2);
     let (name, relation, result): (&str, &str, Result<(), String>) = if which == 0 {
         // explicit return output
@@ -193,7 +202,10 @@ fn setters(ctx: &mut Ctx, r: &mut Rng, _i: u64) {
             c19_check_body(ctx, &tx, &s.utxos, &params, None, &det, &format!("set_{}", name));
         }
         Err(_) => {
-            if tx.field(16).is_some() || tx.field(17).is_some() {
+            if pre_set {
+                // the fields were set by the earlier call of the history itself
+                ctx.bucket("setter.err-after-an-earlier-successful-call");
+            } else if tx.field(16).is_some() || tx.field(17).is_some() {
                 ctx.violation(&format!("set_{}/failed-attempt-left-a-field-set", name), det.clone());
             } else {
                 ctx.bucket("setter.err-leaves-nothing");
